@@ -46,6 +46,8 @@ std::vector<uint32_t> thread_lengths();    // weighted hook counts per thread of
 
 // ----- from any sim thread -----
 int self();                                // sim thread id, -1 outside
+bool is_finished(int id);                  // the OS thread of sim thread `id` has run its TLS destructors and reported exit
+uint64_t run_probe_count(int probe);       // how often a /repo probe fired in the current run
 bool active();                             // inside concurrent phase
 void op_begin(int op_index);               // scheduling point at operation boundary; arms faults of that op
 void op_end();
